@@ -591,9 +591,16 @@ pub mod lemmas {
     }
 
 //@@ end
+    /// A-derive-eq: `#[derive(PartialEq, Eq)]` on ItemState is structural equality (T6)
+    #[verifier::external_body]
+    pub broadcast proof fn axiom_item_state_eq(a: ItemState, b: ItemState)
+        ensures <ItemState as PartialEqSpec>::obeys_eq_spec(), #[trigger] a.eq_spec(&b) == (a == b),
+    {}
+
     pub broadcast group ledger {
         lemma_count_update,
         lemma_count_witness,
+        axiom_item_state_eq,
     }
 }
 
@@ -605,7 +612,7 @@ pub mod real {
     use super::prelude::*;
 
 //@@ type src/args.rs | enum ItemState
-//@@ unit args.ItemState tags=
+//@@ unit args.ItemState tags= derive_copy derive_eq
 //@@ end
 
 //@@ fn src/args.rs | impl ItemState | fn parsed
@@ -708,7 +715,7 @@ pub mod real {
 //@@ end
 
 //@@ fn src/args.rs | mod inner | impl State | fn get
-//@@ unit args.State.get tags=C05,C01
+//@@ unit args.State.get tags=C05,C01,C07
 //@@ ret r
 //@@ spec
         requires self.wf(),
@@ -1299,7 +1306,7 @@ pub trait Parser<T> {
                 Err(e) => r == Err::<Vec<T>, Error>(e),
             }
     }
-//@@ insert before 1 `while let`
+//@@ preloop 1
 let ghost mut g_args = *args; let ghost mut g_len = len; let ghost mut g_res = res@;
 //@@ loop 1
             invariant_except_break
@@ -1350,7 +1357,7 @@ proof { lemma_step_trans(*old(args), g_args, *args); }
                 Err(e) => r == Err::<usize, Error>(e),
             }
     }
-//@@ insert before 1 `while (`
+//@@ preloop 1
 let ghost mut g_args = *args; let ghost mut g_len = len; let ghost mut g_vals = Seq::<T>::empty();
 //@@ loop 1
             invariant_except_break
@@ -1403,7 +1410,7 @@ proof { lemma_step_trans(*old(args), g_args, *args); }
                 Err(e) => r == Err::<T, Error>(e) && post == pl,
             }
     }
-//@@ insert before 1 `while let`
+//@@ preloop 1
 let ghost mut g_args = *args; let ghost mut g_len = len; let ghost mut g_vals = Seq::<T>::empty();
 //@@ loop 1
             invariant_except_break
